@@ -13,6 +13,10 @@ CUR = None          # current Interp (set by the engine) -- needed for fresh nam
 REGISTRY = {}       # "path::qualname" -> Contract
 
 
+class SpecNameError(AttributeError):
+    """a contract refers to a parameter / local variable that the function (no longer) has"""
+
+
 class NS:
     """attribute namespace (parameters at entry, loop state ...)"""
 
@@ -21,7 +25,7 @@ class NS:
         _ns.__dict__.update(kw)
 
     def __getattr__(self, k):
-        raise AttributeError(f"spec namespace has no {k!r} (have {sorted(self.__dict__)})")
+        raise SpecNameError(f"spec namespace has no {k!r} (have {sorted(self.__dict__)})")
 
 
 class Contract:
